@@ -1,0 +1,230 @@
+//go:build verif
+
+package wtxmgr
+
+// Contracts for C01 / C02, second wave (comment only): updateMinedBalance,
+// rollback (per-record effects), the second pass of Balance, the descendant
+// rule of removeConflict.
+
+// Assumed (generator limit: `txHash[:]` on a pointer to an array FIELD is an
+// interior object; built inline the iterator value contradicts the slice
+// well-formedness facts of the engine and everything after it is vacuous):
+// the iterator wraps a cursor of bucket mc and its prefix holds the hash bytes.
+// Same assumption as makeReadUnminedCreditIterator (C13).
+//@ func makeUnminedCreditIterator(ns, txHash) (r)
+//@   property C01
+//@   trusted
+//@   pure
+//@   ensures iterator: r.c != nil && cbkt(r.c) == B_MC(ns) && r.ck == nil && r.err == nil && len(r.prefix) == 32 && bytes(r.prefix) == HASHB(txHash)
+
+// a record of bucket b in the state on entry to the loop whose invariant is being evaluated
+//@ macro HAS_LE(b, k) = select(select(loopentry(DBhas), b), k)
+//@ macro VAL_LE(b, k) = select(select(loopentry(DBval), b), k)
+
+// representation invariant: every credit record holds at least the amount and the flag byte
+//@ macro INV_C_LEN(ns) = (forall ck Bytes :: {blen(VAL(B_C(ns), ck))} HAS(B_C(ns), ck) ==> blen(VAL(B_C(ns), ck)) >= 9)
+// INV_MI with a trigger that fires only where the length of a stored list is mentioned
+//@ macro INV_MI2(ns) = (forall K Bytes :: {blen(VAL(B_MI(ns), K))} HAS(B_MI(ns), K) ==> blen(VAL(B_MI(ns), K)) % 32 == 0)
+// rollback: debit / credit key of input / output j of rec in the block under the iterator (same layout), and
+// the credit key named by the debit record that existed on entry to the loop
+//@ macro RB_KD(rec, it, j) = K_cr(rec.Hash, j, it.elem.Block.Hash, it.elem.Block.Height)
+// the same keys read in the state on entry to the loop (the loops do not change them: invariants kept / keys_kept)
+//@ macro RB_KDE(rec, it, j) = loopentry(K_cr(rec.Hash, j, it.elem.Block.Hash, it.elem.Block.Height))
+//@ macro PKE(rec, j) = loopentry(PREVKEY(rec.MsgTx.TxIn[j]))
+//@ macro RB_CK(ns, rec, it, j) = bsub(VAL_LE(B_D(ns), RB_KDE(rec, it, j)), 8, 80)
+// the output index can be read back from an outpoint key (fires only where mcIndex of such a key is mentioned)
+//@ lemma kop_index@C02: forall h [Int]Int, x Int :: {mcIndex(K_op(h, x))} 0 <= x && x <= 4294967295 ==> mcIndex(K_op(h, x)) == x
+
+// ======================= one-record helpers (exactly one key of one bucket changes, nothing on failure) =======================
+//@ func putUnspentCredit(ns, cred) (err)
+//@   property C01
+//@   requires wf: ns != nil && cred != nil && select(DBlive, B_C(ns))
+//@   ensures stored: err == nil ==> PUT1(B_C(ns), K_cr(old(cred.outPoint.Hash), old(cred.outPoint.Index), old(cred.block.Hash), old(cred.block.Height)), V_cr(old(cred.amount), old(cred.change)))
+// the key written is the credit key that the unspent record (outpoint -> block) names
+//@   ensures key_is_ckey: K_cr(old(cred.outPoint.Hash), old(cred.outPoint.Index), old(cred.block.Hash), old(cred.block.Height)) == CKEY(K_op(old(cred.outPoint.Hash), old(cred.outPoint.Index)), V_u(old(cred.block.Hash), old(cred.block.Height)))
+//@   reveal CKEY
+//@   ensures failure_changes_nothing: err != nil ==> DB_UNCHANGED()
+
+//@ func deleteRawCredit(ns, k) (err)
+//@   property C01 C02
+//@   requires wf: ns != nil && select(DBlive, B_C(ns))
+//@   ensures deleted: err == nil ==> DEL1(B_C(ns), old(bytes(k)))
+//@   ensures failure_changes_nothing: err != nil ==> DB_UNCHANGED()
+
+//@ func deleteRawDebit(ns, k) (err)
+//@   property C01 C02
+//@   requires wf: ns != nil && select(DBlive, B_D(ns))
+//@   ensures deleted: err == nil ==> DEL1(B_D(ns), old(bytes(k)))
+//@   ensures failure_changes_nothing: err != nil ==> DB_UNCHANGED()
+
+//@ func putRawUnmined(ns, k, v) (err)
+//@   property C02
+//@   requires wf: ns != nil && select(DBlive, B_M(ns))
+//@   ensures stored: err == nil ==> PUT1(B_M(ns), old(bytes(k)), old(bytes(v)))
+//@   ensures failure_changes_nothing: err != nil ==> DB_UNCHANGED()
+
+//@ func putRawUnspent(ns, k, v) (err)
+//@   property C01 C02
+//@   requires wf: ns != nil && select(DBlive, B_U(ns))
+//@   ensures stored: err == nil ==> PUT1(B_U(ns), old(bytes(k)), old(bytes(v)))
+//@   ensures failure_changes_nothing: err != nil ==> DB_UNCHANGED()
+
+// block records: only bucket b changes
+//@ func deleteBlockRecord(ns, height) (err)
+//@   property C02
+//@   ensures only_blocks: DBlive == old(DBlive) && DBval == old(DBval) && (forall id Int :: {select(DBhas, id)} id != B_B(ns) ==> select(DBhas, id) == select(old(DBhas), id))
+
+// existsDebit: the debit key of (tx, block, input index); nil keys when no debit
+// is recorded; otherwise the key of the credit it spends (value bytes 8..80)
+//@ func existsDebit(ns, txHash, index, block) (k, credKey, err)
+//@   property C01 C02
+//@   requires wf: ns != nil && txHash != nil && block != nil && select(DBlive, B_D(ns))
+//@   ensures absent: !HAS(B_D(ns), K_cr(old(deref(txHash)), index, old(block.Hash), old(block.Height))) ==> k == nil && credKey == nil && err == nil
+//@   ensures present: HAS(B_D(ns), K_cr(old(deref(txHash)), index, old(block.Hash), old(block.Height))) && err == nil ==> k != nil && len(k) == 72
+//@       && bytes(k) == K_cr(old(deref(txHash)), index, old(block.Hash), old(block.Height)) && len(credKey) == 72
+//@       && bytes(credKey) == bsub(VAL(B_D(ns), K_cr(old(deref(txHash)), index, old(block.Hash), old(block.Height))), 8, 80)
+//@   ensures error_no_keys: err != nil ==> k == nil && credKey == nil
+//@   ensures db_unchanged: DB_UNCHANGED()
+//@   ensures frame: forall o Int :: {select(@M(uint8), o)} oldalloc(o) ==> select(@M(uint8), o) == select(old(@M(uint8)), o)
+
+// the unspent-index value named by a credit key: its bytes 32..68 (block height and hash)
+//@ func fetchRawCreditUnspentValue(k) (v, err)
+//@   property C01 C02
+//@   pure
+//@   ensures short_refused: (err != nil) == (len(k) < 72)
+//@   ensures value: err == nil ==> len(v) == 36 && bytes(v) == bsub(bytes(k), 32, 68)
+
+//@ func fetchRawCreditAmountChange(v) (amt, change, err)
+//@   property C01 C02
+//@   pure
+//@   ensures short_refused: (err != nil) == (len(v) < 9)
+//@   ensures amount: err == nil ==> amt == amtOf(bytes(v))
+//@   ensures change_flag: err == nil ==> change == crChangeBit(bytes(v))
+
+// ======================= C01: updateMinedBalance =======================
+// credit key named by an unspent-index record (k -> uv): tx hash = k[0:32],
+// block height and hash = uv[0:36], output index = k[32:36]
+//@ spec func ckArr(k Bytes, uv Bytes) [Int]Int
+//@ axiom ckArr_def: forall k Bytes, uv Bytes, i Int :: {select(ckArr(k, uv), i)}
+//@     select(ckArr(k, uv), i) == ((0 <= i && i < 32) ? bat(k, i) : ((32 <= i && i < 68) ? bat(uv, i - 32) : ((68 <= i && i < 72) ? bat(k, i - 36) : 0)))
+// (opaque: only existsRawUnspent and the lemmas below look inside)
+//@ spec opaque func CKEY(k Bytes, uv Bytes) Bytes = mkbytes(72, ckArr(k, uv))
+// representation invariant (W2): every record of the unspent index names an existing credit record
+//@ macro INV_U_C(ns) = (forall K Bytes :: {CKEY(K, VAL(B_U(ns), K))} IN_U(ns, K) ==>
+//@     HAS(B_C(ns), CKEY(K, VAL(B_U(ns), K))) && blen(VAL(B_C(ns), CKEY(K, VAL(B_U(ns), K)))) >= 9 && blen(VAL(B_C(ns), CKEY(K, VAL(B_U(ns), K)))) <= 81)
+
+// the output / input index can be read back from a credit / debit key (fires only where crIndex of such a key is mentioned)
+//@ lemma kcr_index@C01: forall t [Int]Int, x Int, b [Int]Int, g Int :: {kcrArr(t, x, b, g)} 0 <= x && x <= 4294967295 ==>
+//@     be32(select(kcrArr(t, x, b, g), 68), select(kcrArr(t, x, b, g), 69), select(kcrArr(t, x, b, g), 70), select(kcrArr(t, x, b, g), 71)) == x
+
+// Every input whose previous output is in the unspent index when the call
+// starts is debited: it has left the index when the call succeeds, its credit
+// record carries the spent flag (same amount), and - for the first input that
+// names this output - a debit record (amount of the credit, key of the credit)
+// exists under (rec.Hash, block, input index). "Unless the input names an
+// output of rec itself": no real transaction does; the second loop re-enters
+// rec's own unmined credits as unspent mined credits.
+//@ macro OWN_OUT(k, rec) = (exists x Int :: {K_op(old(rec.Hash), x)} k == K_op(old(rec.Hash), x))
+//@ macro OWN_CREDIT(ck, rec, block) = (exists x Int :: {K_cr(old(rec.Hash), x, old(block.Block.Hash), old(block.Block.Height))} ck == K_cr(old(rec.Hash), x, old(block.Block.Hash), old(block.Block.Height)))
+//@ macro U_ONLY_SHRINKS(ns) = (forall K Bytes :: {select(select(DBhas, B_U(ns)), K)} HAS(B_U(ns), K) ==> old(HAS(B_U(ns), K)) && VAL(B_U(ns), K) == old(VAL(B_U(ns), K)))
+// (keys are read in the entry state throughout: the loops write other outpoint objects)
+//@ macro PK(rec, j) = old(PREVKEY(rec.MsgTx.TxIn[j]))
+//@ macro CK_OLD(ns, rec, j) = old(CKEY(PREVKEY(rec.MsgTx.TxIn[j]), VAL(B_U(ns), PREVKEY(rec.MsgTx.TxIn[j]))))
+//@ macro KD(rec, block, j) = K_cr(old(rec.Hash), j, old(block.Block.Hash), old(block.Block.Height))
+//@ macro FIRST(rec, j) = (forall j2 Int :: {rec.MsgTx.TxIn[j2]} 0 <= j2 && j2 < j ==> PK(rec, j2) != PK(rec, j))
+// trigger for facts about the amount of a stored record value v: the big-endian word amtOf(v) is built from
+//@ macro AMT_TRIG(v) = be64(bat(v, 0), bat(v, 1), bat(v, 2), bat(v, 3), bat(v, 4), bat(v, 5), bat(v, 6), bat(v, 7))
+// W3 for a key K that left the unspent index during this call (ck = the credit it named, c = that credit's
+// value now, spk = the spender key recorded in c): c carries the spent flag, spk is the debit key of an input
+// (index <= n) of rec in this block whose previous output names the same credit, and the debit record under spk
+// exists, names ck and carries c's amount.
+//@ macro CK_OF(ns, K) = CKEY(K, old(VAL(B_U(ns), K)))
+//@ macro SPK_OF(ns, K) = bsub(VAL(B_C(ns), CK_OF(ns, K)), 9, 81)
+//@ macro DEBITED(ns, rec, block, K, n) = (SPENT_FLAG(VAL(B_C(ns), CK_OF(ns, K))) && 0 <= crIndex(SPK_OF(ns, K)) && crIndex(SPK_OF(ns, K)) <= n
+//@     && SPK_OF(ns, K) == KD(rec, block, crIndex(SPK_OF(ns, K))) && HAS(B_D(ns), SPK_OF(ns, K)) && bsub(VAL(B_D(ns), SPK_OF(ns, K)), 8, 80) == CK_OF(ns, K)
+//@     && amtOf(VAL(B_D(ns), SPK_OF(ns, K))) == amtOf(VAL(B_C(ns), CK_OF(ns, K))))
+//@ func (*Store).updateMinedBalance(s, ns, rec, block) (err)
+//@   property C01
+//@   requires args: block != nil
+//@   requires unspent_wf: INV_U_C(ns)
+//@   invariant 1 idx: 0 <= rangeindex + 1 && rangeindex + 1 <= len(rec.MsgTx.TxIn)
+//@   invariant 1 rec_kept: rec.MsgTx.TxIn == old(rec.MsgTx.TxIn) && spender.txHash == old(rec.Hash) && spender.block == old(block.Block)
+//@   invariant 1 unspent_wf: INV_U_C(ns)
+//@   invariant 1 u_shrinks: U_ONLY_SHRINKS(ns)
+//@   invariant 1 c_has_kept: select(DBhas, B_C(ns)) == old(select(DBhas, B_C(ns)))
+//@   invariant 1 c_amounts_kept: forall ck Bytes :: {AMT_TRIG(VAL(B_C(ns), ck))} amtOf(VAL(B_C(ns), ck)) == old(amtOf(VAL(B_C(ns), ck)))
+//@   invariant 1 inputs_spent: forall j Int :: {rec.MsgTx.TxIn[j]} 0 <= j && j <= rangeindex && old(IN_U(ns, PREVKEY(rec.MsgTx.TxIn[j]))) ==> !HAS(B_U(ns), PK(rec, j))
+//@   invariant 1 left_is_debited: len(rec.MsgTx.TxIn) <= 4294967295 ==> (forall K Bytes :: {CK_OF(ns, K)} old(IN_U(ns, K)) && !HAS(B_U(ns), K) ==> DEBITED(ns, rec, block, K, rangeindex))
+//@   invariant 2 rec_kept: rec.MsgTx.TxIn == old(rec.MsgTx.TxIn) && cred.outPoint.Hash == old(rec.Hash) && cred.block == old(block.Block)
+//@   invariant 2 inputs_spent: forall j Int :: {rec.MsgTx.TxIn[j]} 0 <= j && j < len(rec.MsgTx.TxIn) && old(IN_U(ns, PREVKEY(rec.MsgTx.TxIn[j]))) ==>
+//@       (!HAS(B_U(ns), PK(rec, j)) || OWN_OUT(PK(rec, j), rec))
+//@   invariant 2 c_amounts_kept: forall ck Bytes :: {AMT_TRIG(VAL(B_C(ns), ck))} amtOf(VAL(B_C(ns), ck)) == old(amtOf(VAL(B_C(ns), ck))) || OWN_CREDIT(ck, rec, block)
+//@   invariant 2 left_is_debited: len(rec.MsgTx.TxIn) <= 4294967295 ==> (forall K Bytes :: {CK_OF(ns, K)} old(IN_U(ns, K)) && !HAS(B_U(ns), K) ==>
+//@       DEBITED(ns, rec, block, K, len(rec.MsgTx.TxIn) - 1) || OWN_CREDIT(CK_OF(ns, K), rec, block))
+//@   invariant 2 unspent_wf: INV_U_C(ns)
+//@   invariant 2 debits_kept: select(DBhas, B_D(ns)) == loopentry(select(DBhas, B_D(ns))) && select(DBval, B_D(ns)) == loopentry(select(DBval, B_D(ns)))
+//@   ensures inputs_spent: err == nil ==> (forall j Int :: {rec.MsgTx.TxIn[j]} 0 <= j && j < len(rec.MsgTx.TxIn) && old(IN_U(ns, PREVKEY(rec.MsgTx.TxIn[j]))) ==>
+//@       (!HAS(B_U(ns), PK(rec, j)) || OWN_OUT(PK(rec, j), rec)))
+//@   ensures inputs_debited: err == nil && len(rec.MsgTx.TxIn) <= 4294967295 ==> (forall j Int :: {rec.MsgTx.TxIn[j]} 0 <= j && j < len(rec.MsgTx.TxIn) && old(IN_U(ns, PREVKEY(rec.MsgTx.TxIn[j]))) ==>
+//@       (DEBITED(ns, rec, block, PK(rec, j), len(rec.MsgTx.TxIn) - 1) && amtOf(VAL(B_C(ns), CK_OLD(ns, rec, j))) == old(amtOf(VAL(B_C(ns), CK_OLD(ns, rec, j)))))
+//@       || OWN_CREDIT(CK_OLD(ns, rec, j), rec, block) || OWN_OUT(PK(rec, j), rec))
+//@   ensures unspent_wf_kept: err == nil ==> INV_U_C(ns)
+
+// ======================= C01: Balance, second pass (young / immature outputs) =======================
+// What output n of the transaction under the cursor contributes to the second-pass correction: its credit's
+// amount exactly when the output is NOT leased at this iteration's clock reading, NOT spent by an unmined
+// transaction, carries a credit record in this block that is NOT marked spent, and is too young / immature
+// (young); otherwise nothing. (lo / lov: lease bucket, mi: unmined inputs, ch / cv: credits.)
+// (opaque only because it mentions key codecs declared in a later file: Balance reveals it)
+//@ spec opaque func y2term(lolive Bool, lo [Bytes]Bool, lov [Bytes]Bytes, mi [Bytes]Bool, ch [Bytes]Bool, cv [Bytes]Bytes, txh [Int]Int, bh [Int]Int, hg Int, now Int, young Bool, n Int) Int =
+//@     ((!(lolive && select(lo, K_op(txh, n)) && now < secToInt(leaseSec(select(lov, K_op(txh, n)))) * 1000000000) && !select(mi, K_op(txh, n))
+//@       && select(ch, K_cr(txh, n, bh, hg)) && blen(select(cv, K_cr(txh, n, bh, hg))) >= 9 && !SPENT_FLAG(select(cv, K_cr(txh, n, bh, hg))) && young)
+//@      ? amtOf(select(cv, K_cr(txh, n, bh, hg))) : 0)
+// y2sum(..., clk0, young, n): the sum of y2term over outputs 0 .. n-1, output j judged at clock reading clk0 + j
+// (recursive definition; the marker at(n) limits unfolding to the places that ask for it)
+//@ spec func y2sum(lolive Bool, lo [Bytes]Bool, lov [Bytes]Bytes, mi [Bytes]Bool, ch [Bytes]Bool, cv [Bytes]Bytes, txh [Int]Int, bh [Int]Int, hg Int, clk0 Int, young Bool, n Int) Int
+//@ axiom y2sum_0: forall lolive Bool, lo [Bytes]Bool, lov [Bytes]Bytes, mi [Bytes]Bool, ch [Bytes]Bool, cv [Bytes]Bytes, txh [Int]Int, bh [Int]Int, hg Int, clk0 Int, young Bool, n Int ::
+//@     {y2sum(lolive, lo, lov, mi, ch, cv, txh, bh, hg, clk0, young, n)} n <= 0 ==> y2sum(lolive, lo, lov, mi, ch, cv, txh, bh, hg, clk0, young, n) == 0
+//@ axiom y2sum_s: forall lolive Bool, lo [Bytes]Bool, lov [Bytes]Bytes, mi [Bytes]Bool, ch [Bytes]Bool, cv [Bytes]Bytes, txh [Int]Int, bh [Int]Int, hg Int, clk0 Int, young Bool, n Int ::
+//@     {y2sum(lolive, lo, lov, mi, ch, cv, txh, bh, hg, clk0, young, n), at(n)} n > 0 ==> y2sum(lolive, lo, lov, mi, ch, cv, txh, bh, hg, clk0, young, n) ==
+//@       y2sum(lolive, lo, lov, mi, ch, cv, txh, bh, hg, clk0, young, n - 1) + y2term(lolive, lo, lov, mi, ch, cv, txh, bh, hg, tns(clockVal(clk0 + n - 1)), young, n - 1)
+//@ macro ISCB(rec) = (len(rec.MsgTx.TxIn) == 1 && rec.MsgTx.TxIn[0].PreviousOutPoint.Index == 4294967295 && zeroHash32(rec.MsgTx.TxIn[0].PreviousOutPoint.Hash))
+//@ macro BLK_CONFS(syncHeight, h) = (syncHeight - h + 1)
+//@ macro YOUNG(rec, syncHeight, h, minConf, mat) = (BLK_CONFS(syncHeight, h) < minConf || (ISCB(rec) && BLK_CONFS(syncHeight, h) < mat))
+// The fold for the innermost loop of Balance's second pass (free names - blockIt, rec, syncHeight, minConf,
+// coinbaseMaturity, clk, rangeindex (of the enclosing range loop: the current element is rangeindex + 1) - are those of Balance; macro arguments are evaluated at the use site, so the
+// loop-entry readings are written out here). All arguments but the count n are read in the state on entry to
+// the loop; the invariant `kept` says they do not change in it.
+//@ macro Y2FOLD(ns, n) = y2sum(loopentry(select(DBlive, B_LO(ns))), loopentry(select(DBhas, B_LO(ns))), loopentry(select(DBval, B_LO(ns))), loopentry(select(DBhas, B_MI(ns))),
+//@     loopentry(select(DBhas, B_C(ns))), loopentry(select(DBval, B_C(ns))), loopentry(blockIt.elem.transactions[rangeindex + 1]), loopentry(blockIt.elem.Block.Hash), loopentry(blockIt.elem.Block.Height),
+//@     loopentry(clk), loopentry(YOUNG(rec, syncHeight, blockIt.elem.Block.Height, minConf, coinbaseMaturity)), n)
+
+// The transaction list of a decoded block record is memory allocated by the decoder (make): no variable of the
+// caller lives in it.
+//@ func readRawBlockRecord(k, v, block) (err)
+//@   property C01
+//@   requires nonnil: block != nil
+//@   invariant 1 txs_kept: block.transactions == loopentry(block.transactions)
+//@   ensures txs_fresh: err == nil ==> block.transactions.base > 0 && !oldalloc(block.transactions.base)
+
+// ======================= C02: lists of unmined spenders (bucket mi) =======================
+// c-th 32-byte hash of a spender list
+//@ spec opaque func chunk(l Bytes, c Int) Bytes = bsub(l, 32 * c, 32 * c + 32)
+//@ lemma chunk_left@C02: forall x Bytes, y Bytes, c Int :: {chunk(bcat(x, y), c)} 0 <= c && 32 * c + 32 <= blen(x) && 0 <= blen(y) ==> chunk(bcat(x, y), c) == chunk(x, c)
+//@ lemma chunk_right@C02: forall x Bytes, y Bytes, c Int :: {chunk(bcat(x, y), c)} 0 <= c && blen(x) == 32 * c && blen(y) == 32 ==> chunk(bcat(x, y), c) == bsub(y, 0, 32)
+//@ lemma chunk_len@C02: forall x Bytes, c Int :: {chunk(x, c)} blen(chunk(x, c)) == 32
+// a sub-string of a sub-string
+//@ lemma bsub_bsub@C02: forall l Bytes, a Int, b Int, c Int, d Int :: {bsub(bsub(l, a, b), c, d)} 0 <= a && a <= b && 0 <= c && c <= d && d <= b - a ==> bsub(bsub(l, a, b), c, d) == bsub(l, a + c, a + d)
+
+// every hash listed under outpoint key K in bucket mi names no unmined record (any more)
+//@ macro SPENDERS_GONE(ns, K) = (HAS(B_MI(ns), K) ==> (forall c Int :: {chunk(VAL(B_MI(ns), K), c)} 0 <= c && 32 * c + 32 <= blen(VAL(B_MI(ns), K)) ==> !HAS(B_M(ns), chunk(VAL(B_MI(ns), K), c))))
+// the lists of bucket mi only lose hashes (relative to the entry state / to the state on entry to the loop)
+//@ macro MI_ONLY_SHRINKS(ns) = (forall K Bytes :: {select(select(DBhas, B_MI(ns)), K)} HAS(B_MI(ns), K) ==> old(HAS(B_MI(ns), K)) &&
+//@     (forall c Int :: {chunk(VAL(B_MI(ns), K), c)} 0 <= c && 32 * c + 32 <= blen(VAL(B_MI(ns), K)) ==>
+//@         at(c) && (exists b Int :: {at(b)} at(b) && 0 <= b && 32 * b + 32 <= blen(old(VAL(B_MI(ns), K))) && chunk(VAL(B_MI(ns), K), c) == chunk(old(VAL(B_MI(ns), K)), b))))
+//@ macro MI_ONLY_SHRINKS_LE(ns) = (forall K Bytes :: {select(select(DBhas, B_MI(ns)), K)} HAS(B_MI(ns), K) ==> HAS_LE(B_MI(ns), K) &&
+//@     (forall c Int :: {chunk(VAL(B_MI(ns), K), c)} 0 <= c && 32 * c + 32 <= blen(VAL(B_MI(ns), K)) ==>
+//@         at(c) && (exists b Int :: {at(b)} at(b) && 0 <= b && 32 * b + 32 <= blen(VAL_LE(B_MI(ns), K)) && chunk(VAL(B_MI(ns), K), c) == chunk(VAL_LE(B_MI(ns), K), b))))
+// a 32-byte array whose elements are the bytes 32c .. 32c+31 of l is the c-th hash of l
+//@ lemma chunk_from_elems@C02: forall l Bytes, c Int, a [Int]Int :: {chunk(l, c), bsub(mkbytes(32, a), 0, 32)} 0 <= c && 32 * c + 32 <= blen(l)
+//@     && (forall q Int :: {select(a, q)} 0 <= q && q < 32 ==> select(a, q) == bat(l, 32 * c + q)) ==> bsub(mkbytes(32, a), 0, 32) == chunk(l, c)
